@@ -341,6 +341,31 @@ func (pr *printer) wp(expr, poison string) string {
 	return name
 }
 
+// PkgVarColl: is collection c handed to the directive as a package-level
+// variable of the helper package pv? (Its type must be nameable there.)
+func (p *Program) PkgVarColl(c *Coll) bool {
+	if p.Bare || p.Wrap || c.Named || (p.nameOffset()/37)%2 != 0 {
+		return false
+	}
+	switch c.ElemKind {
+	case KU64, KI64, KStr:
+		return true
+	}
+	return false
+}
+
+func (p *Program) anyPkgVarColl() bool {
+	if p.Par == nil {
+		return false
+	}
+	for i := range p.Par.Items {
+		if c := p.Par.Items[i].Coll; c != nil && p.PkgVarColl(c) {
+			return true
+		}
+	}
+	return false
+}
+
 func (p *Program) hasKind(k TKind) bool {
 	for id := 1; id < len(p.Types); id++ {
 		if p.Types[id] == k {
@@ -645,6 +670,16 @@ func (p *Program) Files(base string) map[string]string {
 	}
 	out := map[string]string{"p.go": main}
 	p.constFiles(out)
+	if p.anyPkgVarColl() {
+		var hv strings.Builder
+		hv.WriteString("// Package pv holds package-level variables that the program hands to its directive.\npackage pv\n\n")
+		for i := range p.Par.Items {
+			if c := p.Par.Items[i].Coll; c != nil && p.PkgVarColl(c) {
+				fmt.Fprintf(&hv, "var C%d %s\n", c.Slot, collExpr(c))
+			}
+		}
+		out["pv/pv.go"] = hv.String()
+	}
 	// two packages of one name, each with a type of one name
 	if p.hasKind(KTwinA) {
 		out["ta/model/m.go"] = "// Package model (a): one of two packages named model.\npackage model\n\ntype U struct{ V uint64 }\n"
@@ -865,6 +900,9 @@ func (pr *printer) source() string {
 			}
 		}
 	}
+	if p.anyPkgVarColl() {
+		fmt.Fprintf(&b, "\t\"%s/pv\"\n", p.Base)
+	}
 	if p.hasKind(KTwinA) {
 		fmt.Fprintf(&b, "\tma \"%s/ta/model\"\n", p.Base)
 	}
@@ -1022,7 +1060,18 @@ func (pr *printer) parOpt(it *PItem) string {
 	if c.IsMap {
 		name, end = "Map", "MapEnd"
 	}
-	parts := []string{pr.wp(pr.fnExpr(&c.Fn, c), pr.fnPoisonIf(&c.Fn, c)), pr.wp(fmt.Sprintf("mkC%d(x.Coll(%d))", c.Slot, c.Slot), fmt.Sprintf("mkC%d(x.PoisonColl(%d))", c.Slot, pr.site))}
+	fnPart := pr.wp(pr.fnExpr(&c.Fn, c), pr.fnPoisonIf(&c.Fn, c))
+	var collPart string
+	if pr.p.PkgVarColl(c) {
+		// the collection is a package-level variable of another package, given
+		// to the directive as pv.Cn; the program overwrites it when the first user
+		// function is entered (an argument that is read only then sees that)
+		fmt.Fprintf(&pr.pre, "\tpv.C%d = mkC%d(x.Coll(%d))\n\tx.SetPoison(func() { pv.C%d = mkC%d(x.PoisonColl(%d)) })\n", c.Slot, c.Slot, c.Slot, c.Slot, c.Slot, pr.site)
+		collPart = fmt.Sprintf("pv.C%d", c.Slot)
+	} else {
+		collPart = pr.wp(fmt.Sprintf("mkC%d(x.Coll(%d))", c.Slot, c.Slot), fmt.Sprintf("mkC%d(x.PoisonColl(%d))", c.Slot, pr.site))
+	}
+	parts := []string{fnPart, collPart}
 	if c.End != nil {
 		parts = append(parts, "cff."+end+"("+pr.wp(pr.fnExpr(c.End, nil), pr.fnPoisonIf(c.End, nil))+")")
 	}
